@@ -13,13 +13,40 @@ import QKV.Model.F32Sim
 namespace QKV.BT
 open QKV QKV.Tn
 
-/-- `alpha`: None / a constant / "auto" / "auto_po2" -/
+/-- `alpha` after the dispatch of `binary.__call__` / `ternary.__call__` / `_get_least_squares_scale`:
+    None / a constant (`float(alpha)`) / "auto" / "auto_po2" / an `np.ndarray` used as it is
+    (`elif isinstance(alpha, np.ndarray): scale = alpha`; row-major values, broadcast against the input) -/
 inductive Alpha
   | none
   | const (a : Rat)
   | auto
   | autoPo2
+  | arr (ashape : List Nat) (vals : List Rat)
   deriving Repr, DecidableEq
+
+/-! ### broadcasting an ndarray `alpha` against the input -/
+
+/-- numpy / TF broadcasting of an array of shape `ash` TO a tensor of shape `shape`: right-aligned, every
+    dimension of the array is 1 or equals the tensor's.  (An array that would broadcast the INPUT up —
+    more axes, or a dimension > 1 against a dimension 1 — makes TF return a tensor larger than the input;
+    that is outside the model and rejected here like an incompatible shape, which TF rejects too.) -/
+def bcastOk (ash shape : List Nat) : Bool :=
+  decide (ash.length ≤ shape.length) &&
+  (List.range ash.length).all fun d =>
+    ash.getD d 1 == 1 || ash.getD d 1 == shape.getD (d + (shape.length - ash.length)) 0
+
+/-- multi-index of the array entry read at multi-index `idx` of the tensor -/
+def arrMIdx (ash : List Nat) (rank : Nat) (idx : List Nat) : List Nat :=
+  (List.range ash.length).map fun d => if ash.getD d 1 = 1 then 0 else idx.getD (d + (rank - ash.length)) 0
+
+/-- flat (row-major) position of the array entry read by flat position `i` of the tensor -/
+def arrIdx (ash shape : List Nat) (i : Nat) : Nat := ravel ash (arrMIdx ash shape.length (unravel shape i))
+
+/-- the array broadcast to the tensor: one scale per position -/
+def arrScales (ash : List Nat) (vals : List Rat) (shape : List Nat) : Except Err (List Rat) :=
+  if bcastOk ash shape && vals.length == prodL ash then
+    .ok ((List.range (prodL shape)).map fun i => vals.getD (arrIdx ash shape i) 0)
+  else .error .valueError
 
 /-! ### `_get_least_squares_scale` -/
 
@@ -96,6 +123,10 @@ def binary (c : Fl) (cfg : BinCfg) (shape : List Nat) (x : List Rat) : Except Er
   match cfg.alpha with
   | .none => .ok (mk (x.map fun _ => 1))
   | .const a => .ok (mk (x.map fun _ => a))
+  | .arr ash vals =>
+    match arrScales ash vals shape with
+    | .error e => .error e
+    | .ok s => .ok (mk s)
   | .auto | .autoPo2 =>
     match keys cfg.grp shape with
     | .error e => .error e
@@ -156,6 +187,10 @@ def ternary (c : Fl) (cfg : TerCfg) (shape : List Nat) (x : List Rat) : Except E
   match cfg.alpha with
   | .none => .ok (mk (x.map (terCodeFixed cfg.thres)) (x.map fun _ => 1))
   | .const a => .ok (mk (x.map (terCodeFixed cfg.thres)) (x.map fun _ => a))
+  | .arr ash vals =>
+    match arrScales ash vals shape with
+    | .error e => .error e
+    | .ok s => .ok (mk (x.map (terCodeFixed cfg.thres)) s)
   | .auto | .autoPo2 =>
     if cfg.unrolls = 0 then .error .assert      -- `q` would be unbound (NameError)
     else
@@ -166,5 +201,264 @@ def ternary (c : Fl) (cfg : TerCfg) (shape : List Nat) (x : List Rat) : Except E
         let s0 := terInitScale c po2 (maxKeys (terMaxAxes cfg.chLast shape.length) shape) x
         let st := terLoop c po2 shape.length pk ck x cfg.unrolls { q := [], s := s0 }
         .ok (mk st.q st.s)
+
+/-! ### argument forms, live objects, histories
+
+  `binary` / `ternary` above are functions of an already resolved configuration.  The Python objects are
+  built from ARGUMENTS of many forms (python float / int / bool, numpy scalars of several dtypes, 0-d and
+  per-channel `np.ndarray`s, eager tensors, strings), keep their attributes mutable, read the image data
+  format at CALL time and store `self.scale` as a side effect.  This section models that layer:
+  `Arg` (what was handed over), the dispatches (`alphaOfArg`, `thresOfArg`, `expOfArg`), the objects
+  (`BinObj`, `TerObj`: also `stochastic_binary` / `stochastic_ternary` in the inference phase, whose
+  `__call__` is `binary.__call__(self, x)` / `ternary.__call__(self, x)`), and histories of operations on
+  one object.  -/
+
+/-- the Python type of a scalar argument.  Every one of them takes the `else: float(alpha)` branch. -/
+inductive NumForm
+  | pyFloat | pyInt | pyBool | npFloat32 | npFloat64 | npInt32 | npInt64 | tfConst | tfVariable
+  deriving Repr, DecidableEq
+
+/-- an argument as Python hands it over: None, a string, a scalar of some `NumForm` with its exact value,
+    or an `np.ndarray` (shape + row-major values; shape `[]` is a 0-d array) -/
+inductive Arg
+  | none
+  | str (s : String)
+  | num (f : NumForm) (v : Rat)
+  | arr (ashape : List Nat) (vals : List Rat)
+  deriving Repr, DecidableEq
+
+/-- the alpha dispatch (`binary.__call__`, `ternary.__call__`, tail of `_get_least_squares_scale`):
+      None → default;  "auto" / "auto_po2";  any other string fails `assert self.alpha in [...]`;
+      `isinstance(alpha, np.ndarray)` → the array itself;  everything else → `float(alpha)`. -/
+def alphaOfArg : Arg → Except Err Alpha
+  | .none => .ok .none
+  | .str s => if s = "auto" then .ok .auto else if s = "auto_po2" then .ok .autoPo2 else .error .assert
+  | .num _ v => .ok (.const v)
+  | .arr sh vals => .ok (.arr sh vals)
+
+/-- the threshold of the fixed branch of `ternary.__call__`: `default_threshold = 0.33` for None, else the
+    value; `tf.abs(x) >= thres` converts it to the dtype of `x` (one rounding).  A string fails
+    `assert not isinstance(self.threshold, six.string_types)`; arrays with more than one entry
+    (per-channel thresholds) are not modelled. -/
+def thresOfArg (c : Fl) : Arg → Except Err Rat
+  | .none => .ok (c.r (33 / 100))
+  | .str _ => .error .assert
+  | .num _ v => .ok (c.r v)
+  | .arr _ [v] => .ok (c.r v)
+  | .arr _ _ => .error .valueError
+
+/-- `min_po2_exponent` / `max_po2_exponent` as handed over -/
+inductive ExpArg
+  | none
+  | py (e : Int)        -- python int, python float, numpy float: `2**e` is the power of two
+  | npInt (e : Int)     -- numpy integer (scalar or 0-d array): `2**e` is an integer power
+  deriving Repr, DecidableEq
+
+/-- `2**min_po2_exponent` in `_clip_po2_scale`: numpy refuses negative integer powers of integers
+    ("Integers to negative integer powers are not allowed": ValueError) -/
+def expOfArg : ExpArg → Except Err (Option Int)
+  | .none => .ok Option.none
+  | .py e => .ok (some e)
+  | .npInt e => if e < 0 then .error .valueError else .ok (some e)
+
+/-- process-level state read at call time -/
+structure Env where
+  chLast : Bool          -- K.image_data_format() == "channels_last"
+  deriving Repr
+
+/-- the public attributes of a `binary` object (also of `stochastic_binary`, whose inference-phase
+    `__call__` is `binary.__call__(self, x)`) -/
+structure BinAttrs where
+  use01 : Bool
+  alpha : Arg
+  sa : AxisArg
+  eps : EpsSpec
+  minE : ExpArg
+  maxE : ExpArg
+  deriving Repr
+
+/-- a live object: attributes plus `self.scale` (kept broadcast to the shape of the input of the last
+    successful call; None before the first one) -/
+structure BinObj where
+  a : BinAttrs
+  scale : Option (List Rat)
+  deriving Repr
+
+/-- the constructor: `self.scale = None` -/
+def BinObj.new (a : BinAttrs) : BinObj := { a := a, scale := Option.none }
+
+/-- `stochastic_binary(alpha)`: `super().__init__(alpha=alpha)`, every other attribute at its default -/
+def BinAttrs.ofStochastic (alpha : Arg) : BinAttrs :=
+  { use01 := false, alpha := alpha, sa := .none, eps := .none, minE := .none, maxE := .none }
+
+/-- `scale_axis` as the call sees it: only consulted on the data-dependent paths for inputs of rank > 1
+    (`_get_scale_mean`); negative axes with `elements_per_scale` are not modelled (rejected here) -/
+def BinAttrs.axis (o : BinAttrs) (a : Alpha) (rank : Nat) : Except Err AxisSpec :=
+  match a with
+  | .auto | .autoPo2 =>
+    if rank ≤ 1 then .ok .none
+    else match axisOfArg o.sa, o.eps with
+      | .error e, _ => .error e
+      | .ok sa, .none => .ok sa
+      | .ok sa, _ => if o.sa.nonneg then .ok sa else .error .assert
+  | _ => .ok .none
+
+/-- the configuration a call on an input of rank `rank` works with: attributes as they are NOW, data
+    format as it is NOW.  The exponent bounds are only evaluated on the "auto_po2" path (`_clip_po2_scale`). -/
+def BinAttrs.cfg (env : Env) (o : BinAttrs) (rank : Nat) : Except Err BinCfg :=
+  match alphaOfArg o.alpha with
+  | .error e => .error e
+  | .ok a =>
+    match o.axis a rank with
+    | .error e => .error e
+    | .ok sa =>
+      let grp : Grp := { chLast := env.chLast, sa := sa, eps := o.eps }
+      match a with
+      | .autoPo2 =>
+        match expOfArg o.minE, expOfArg o.maxE with
+        | .ok mn, .ok mx => .ok { use01 := o.use01, alpha := a, grp := grp, minE := mn, maxE := mx }
+        | .error e, _ => .error e
+        | _, .error e => .error e
+      | _ => .ok { use01 := o.use01, alpha := a, grp := grp, minE := Option.none, maxE := Option.none }
+
+/-- `q(x)`: the output, and the object afterwards (`self.scale` is assigned only when the call succeeds;
+    nothing else is written, and `self.scale` is never READ) -/
+def BinObj.call (c : Fl) (env : Env) (o : BinObj) (shape : List Nat) (x : List Rat) :
+    Except Err (List Elt) × BinObj :=
+  match o.a.cfg env shape.length with
+  | .error e => (.error e, o)
+  | .ok cfg =>
+    match binary c cfg shape x with
+    | .error e => (.error e, o)
+    | .ok es => (.ok es, { o with scale := some (es.map (·.scale)) })
+
+/-- `q(x)` with `x` a numpy array (anything whose `.shape` is a tuple, not a `TensorShape`): the same,
+    EXCEPT on the `elements_per_scale` path — `_get_scale_mean` reads `x.shape.as_list()` without the
+    `except AttributeError` fallback `_get_least_squares_scale` (and both `__call__`s) have, so the call
+    raises AttributeError there (reported with the non-assert error kind) -/
+def BinObj.callNp (c : Fl) (env : Env) (o : BinObj) (shape : List Nat) (x : List Rat) :
+    Except Err (List Elt) × BinObj :=
+  match o.a.cfg env shape.length with
+  | .ok cfg =>
+    if (cfg.alpha == .auto || cfg.alpha == .autoPo2) && decide (1 < shape.length) && cfg.grp.eps != .none
+    then (.error .valueError, o) else o.call c env shape x
+  | .error _ => o.call c env shape x
+
+/-- what can be done to a live object between / instead of calls -/
+inductive BinOp
+  | call (shape : List Nat) (x : List Rat)
+  | callNp (shape : List Nat) (x : List Rat)   -- the input is a numpy array
+  | setAlpha (a : Arg)
+  | setUse01 (b : Bool)
+  | setAxis (sa : AxisArg) (eps : EpsSpec)
+  | setBounds (mn mx : ExpArg)
+  | setTrainable               -- `_set_trainable_parameter()`: alpha None → "auto_po2" (what a layer does)
+  | setFormat (chLast : Bool)  -- `K.set_image_data_format(...)`
+
+/-- what an operation does to the attributes (calls and format switches do nothing to them) -/
+def BinAttrs.set (o : BinAttrs) : BinOp → BinAttrs
+  | .call _ _ => o
+  | .callNp _ _ => o
+  | .setAlpha a => { o with alpha := a }
+  | .setUse01 b => { o with use01 := b }
+  | .setAxis sa eps => { o with sa := sa, eps := eps }
+  | .setBounds mn mx => { o with minE := mn, maxE := mx }
+  | .setTrainable => { o with alpha := match o.alpha with | .none => .str "auto_po2" | a => a }
+  | .setFormat _ => o
+
+def Env.step (env : Env) : BinOp → Env
+  | .setFormat b => { chLast := b }
+  | _ => env
+
+/-- state of a history: environment, object, outputs of the calls so far (oldest first) -/
+structure BinSt where
+  env : Env
+  obj : BinObj
+  outs : List (Except Err (List Elt))
+
+def binStep (c : Fl) (st : BinSt) (op : BinOp) : BinSt :=
+  match op with
+  | .call shape x =>
+    let r := st.obj.call c st.env shape x
+    { env := st.env, obj := r.2, outs := st.outs ++ [r.1] }
+  | .callNp shape x =>
+    let r := st.obj.callNp c st.env shape x
+    { env := st.env, obj := r.2, outs := st.outs ++ [r.1] }
+  | op => { env := st.env.step op, obj := { st.obj with a := st.obj.a.set op }, outs := st.outs }
+
+def binRun (c : Fl) (st : BinSt) (ops : List BinOp) : BinSt := ops.foldl (binStep c) st
+
+/-- the public attributes of a `ternary` object (also of `stochastic_ternary` in the inference phase) -/
+structure TerAttrs where
+  alpha : Arg
+  threshold : Arg
+  unrolls : Nat
+  deriving Repr
+
+structure TerObj where
+  a : TerAttrs
+  scale : Option (List Rat)
+  deriving Repr
+
+def TerObj.new (a : TerAttrs) : TerObj := { a := a, scale := Option.none }
+
+/-- `ternary.__call__` up to the branch: a string alpha must be "auto"/"auto_po2" AND the threshold None;
+    otherwise the threshold must not be a string -/
+def TerAttrs.cfg (c : Fl) (env : Env) (o : TerAttrs) : Except Err TerCfg :=
+  match alphaOfArg o.alpha with
+  | .error e => .error e
+  | .ok a =>
+    match a with
+    | .auto | .autoPo2 =>
+      match o.threshold with
+      | .none => .ok { alpha := a, thres := 0, chLast := env.chLast, unrolls := o.unrolls }
+      | _ => .error .assert
+    | _ =>
+      match thresOfArg c o.threshold with
+      | .error e => .error e
+      | .ok t => .ok { alpha := a, thres := t, chLast := env.chLast, unrolls := o.unrolls }
+
+def TerObj.call (c : Fl) (env : Env) (o : TerObj) (shape : List Nat) (x : List Rat) :
+    Except Err (List Elt) × TerObj :=
+  match o.a.cfg c env with
+  | .error e => (.error e, o)
+  | .ok cfg =>
+    match ternary c cfg shape x with
+    | .error e => (.error e, o)
+    | .ok es => (.ok es, { o with scale := some (es.map (·.scale)) })
+
+inductive TerOp
+  | call (shape : List Nat) (x : List Rat)
+  | setAlpha (a : Arg)
+  | setThreshold (t : Arg)
+  | setUnrolls (n : Nat)
+  | setTrainable
+  | setFormat (chLast : Bool)
+
+def TerAttrs.set (o : TerAttrs) : TerOp → TerAttrs
+  | .call _ _ => o
+  | .setAlpha a => { o with alpha := a }
+  | .setThreshold t => { o with threshold := t }
+  | .setUnrolls n => { o with unrolls := n }
+  | .setTrainable => { o with alpha := match o.alpha with | .none => .str "auto_po2" | a => a }
+  | .setFormat _ => o
+
+def Env.stepT (env : Env) : TerOp → Env
+  | .setFormat b => { chLast := b }
+  | _ => env
+
+structure TerSt where
+  env : Env
+  obj : TerObj
+  outs : List (Except Err (List Elt))
+
+def terStepH (c : Fl) (st : TerSt) (op : TerOp) : TerSt :=
+  match op with
+  | .call shape x =>
+    let r := st.obj.call c st.env shape x
+    { env := st.env, obj := r.2, outs := st.outs ++ [r.1] }
+  | op => { env := st.env.stepT op, obj := { st.obj with a := st.obj.a.set op }, outs := st.outs }
+
+def terRun (c : Fl) (st : TerSt) (ops : List TerOp) : TerSt := ops.foldl (terStepH c) st
 
 end QKV.BT
